@@ -623,7 +623,7 @@ def crash_finding(info):
         return 'D29'       # follow-up bytes handed to on_client_data
     if info.get('pname') == 'HttpProxyPlugin':
         if info.get('method') == b'':
-            return 'D30'   # request line with an empty method: `assert self.method` in HttpParser.build
+            return 'D31'   # request line with an empty method: `assert self.method` in HttpParser.build
         return None        # anything else in the proxy plugin's on_request_complete: no recorded finding
     return 'D28'           # on_request_complete of the web server plugin (static path with NUL / non-UTF-8)
 
@@ -648,7 +648,7 @@ def classify(case, sig):
 
 def finding_witnesses():
     return {
-        'D30': _run([b' http://h/ HTTP/1.1\r\n\r\n'], 0, 'ok'),
+        'D31': _run([b' http://h/ HTTP/1.1\r\n\r\n'], 0, 'ok'),
         'D28': _run([b'GET /a\x00.txt HTTP/1.1\r\n\r\n'], 2, 'ok'),
         'D29': _run([b'GET http://h/ HTTP/1.1\r\n\r\n', b'POST http://h/ HTTP/1.1\r\nContent-Length: zz\r\n\r\n'], 0, 'ok'),
     }
